@@ -346,6 +346,23 @@ def _run(ctx, pq):
         case = {"corr": "paths_to_cats", "paths": paths, "dirs_order": impl_dirs, "pm": {k: v["numpy_type"] + "/" + v["pandas_type"] for k, v in pm.items()}}
         ctx.case(case)
         ctx.correspondence("paths_to_cats ~ api.paths_to_cats", case, model, impl)
+        # C08_drill_mixed_level_is_text on the real code: a drill level holding any text no guess converts is labelled by exactly its
+        # directory texts (as text), whatever else it holds and in whatever order the directories are met
+        if impl[0] == "ok" and impl[1][0] == "drill":
+            levels = {}
+            for d in impl_dirs:
+                if not d:           # a file at the root has no directory (paths_to_cats skips it)
+                    continue
+                for j, t in enumerate(d.split("/")):
+                    levels.setdefault("dir%d" % j, set()).add(t)
+            got = {k: set(vs) for k, vs in impl[1][1]}
+            for k, texts in levels.items():
+                if any(isinstance(util._val_to_num(t), str) for t in texts):
+                    ctx.count("D.mixed_level", "text with guessable" if any(not isinstance(util._val_to_num(t), str) for t in texts) else "text only")
+                    want_l = {json.dumps(["s", t]) for t in texts}
+                    if got.get(k) != want_l:
+                        ctx.fail({"component": "_path_to_cats", "scheme": "drill", "stage": "mixed-level-labels"}, case,
+                                 "drill level %s holds text: labels %r, its directory texts %r" % (k, sorted(got.get(k, [])), sorted(want_l)))
 
     if "strip" in (getattr(ctx, "gen_paths", None) or ()):       # the regenerated text itself, evaluated by the kernel, against the real function
         ok_paths = sorted({p for p in d_paths if L.coq_ascii_ok(p)})
